@@ -58,13 +58,15 @@ def check_sketch_cells(rep, fl, rule="R13.4", fold=True):
             rep.bad(rule, fl, b, "per-row iteration", "no per-row iteration (one loop / for_each over 0..DEPTH) in CountMinSketch::%s" % b.name)
             continue
         rng = it.source
-        okrange = rng[0] == "agg" and rng[2].endswith("Range::Range") and rng[3][0] == ("const", 0, "usize") and rng[3][1] == ("const", depth, "usize")
+        # 0..DEPTH, or the rows themselves walked in step with equally long companions (rows.iter_mut().zip(seeds))
+        starts0 = all(coll[3][0] == ("const", 0, "usize") for path, kind, coll in it.components() if kind == "index" and coll is not None)
+        okrange = starts0 and it.rounds(facts) == depth
         rep.check(okrange, rule, fl, b, "rows 0..DEPTH", "all %d rows are visited" % depth, "row range is %s, DEPTH is %d" % (show(rng), depth), loc=it.nt["sp"])
         inner = it.calls_to(ROW + "::" + rowm)
         if len(inner) != 1:
             rep.bad(rule, fl, b, "row call", "expected one CountMinRow::%s call per row" % rowm)
             continue
-        a = [it.canon(x) for x in it.body.call_args(inner[0][1])]
+        a = [it.indexed(x) for x in it.body.call_args(inner[0][1])]
         cells[b.name] = (a[0], a[1], it, inner[0])
         rep.check(it.every_round([inner[0][0]]), rule, fl, b, "every row", "the row operation runs for every visited row", "a row can be skipped")
     if len(cells) == 2:
